@@ -6,6 +6,7 @@ import GivaroModel.Model.PrimesPower
 import GivaroModel.Model.PrimesFactor
 import GivaroModel.Model.PrimesMisc
 import GivaroModel.Model.PrimesContainers
+import GivaroModel.Model.PrimesMR
 import GivaroModel.Spec.PrimesSpec
 -- @driver-mode primes Driver.Primes.primesLine
 namespace Driver.Primes
@@ -175,6 +176,31 @@ def primesLine (line : String) : String :=
       | "lehmannb", [n], [v] =>
         let specOk := if n < 2 then v == 0 else if n ≤ 3 then v == 1 else (v == 0 || v == 1)
         primesVerdict line specOk true "-"
+      | "millers", [n, _seed], [a, v] =>
+        -- Miller(g, n) right after Integer::seeding(seed); `a` = 2 + (first mpz_urandomm(n-3) of a state seeded alike), recomputed by the
+        -- harness.  Specification (Props/C12MR.lean): guards; a prime passes; the base is in [2, n-2]; for odd n the answer is the strong
+        -- test to base a (Spec.mrBase, written independently of the model); model: millerBase, compared exactly
+        if n ≥ (mrLimit : Int) then "PRE" else
+        let m := millerBase n a
+        let specOk :=
+          if n < 2 then v == 0 else if n ≤ 3 then v == 1 else
+          let N := n.toNat
+          let ds := oddPart (Nat.log2 N + 1) (N - 1) 0
+          (v == 0 || v == 1) && decide (2 ≤ a ∧ a ≤ n - 2) && (!primeI n || v == 1) &&
+            (N % 2 == 0 || (v == 1) == mrBase N ds.1 ds.2 a.toNat)
+        primesVerdict line specOk (m == v) (hexInt m)
+      | "lehmanns", [n, _seed], [a, r, v] =>
+        -- test_Lehmann(g, r, n) and Lehmann(g, n), each right after Integer::seeding(seed); `a` = 1 + mpz_urandomm(n-1) recomputed.
+        -- Specification: r = a^((n-1)/2) mod n; for a prime only 1 and n-1 come out; Lehmann = [r = n-1] behind the guards
+        if n ≥ (mrLimit : Int) then "PRE" else
+        if n < 2 then primesVerdict line (v == 0) (lehmannBase n a == v) (hexInt (lehmannBase n a)) else
+        let N := n.toNat
+        let pw := (powModNat a.toNat ((N - 1) / 2) N : Int)
+        let specOk := decide (1 ≤ a ∧ a ≤ n - 1) && r == pw && (!primeI n || r == 1 || r == n - 1) &&
+          v == (if n ≤ 3 then 1 else if r == n - 1 then 1 else 0)
+        let mr := testLehmannBase n a
+        let mv := lehmannBase n a
+        primesVerdict line specOk (mr == r && mv == v) s!"{hexInt mr} {hexInt mv}"
       | "write", [n], neg :: k :: rest =>
         -- write(o, Lf, n) / write(o, n): text parsed strictly by the harness into (sign, p^e list), Lf, and the second text
         let fs := pairs (rest.take (2 * k.toNat))
